@@ -26,6 +26,20 @@ THEOREMS = [
     "BeyondVerif.C08.ephem_iter_own",
     "BeyondVerif.C08.ephem_iter_own_backward",
     "BeyondVerif.C08.ephem_iter_dates_list",
+    "BeyondVerif.C08.ephem_iter_own_sorted",
+    "BeyondVerif.C08.ephem_iter_own_backward_sorted",
+    "BeyondVerif.C08.ephem_iter_strict_start_refused",
+    "BeyondVerif.C08.ephem_iter_strict_stop_refused",
+    "BeyondVerif.C08.ephem_iter_strict_backward_refused",
+    "BeyondVerif.C08.ephem_iter_clamped_forward",
+    "BeyondVerif.C08.ephem_iter_clamped_backward",
+    "BeyondVerif.C08.rangeRun_inclusive_forward",
+    "BeyondVerif.C08.rangeRun_inclusive_backward",
+    "BeyondVerif.C08.rangeRun_exclusive_forward",
+    "BeyondVerif.C08.iter_dates_range",
+    "BeyondVerif.C08.ephem_iter_dates_range",
+    "BeyondVerif.C08.numerical_iter_dates_range_forward",
+    "BeyondVerif.C08.numerical_iter_dates_range_backward",
     "BeyondVerif.C08.numIter_eq_numCore",
     "BeyondVerif.C08.numerical_iter_dates_forward",
     "BeyondVerif.C08.numerical_iter_dates_backward",
@@ -33,8 +47,10 @@ THEOREMS = [
     "BeyondVerif.C08.boundVal_bind",
     "BeyondVerif.C08.exec_inv",
     "BeyondVerif.C08.call_result_pure",
-    "BeyondVerif.C08.propagate_pure_partial",
+    "BeyondVerif.C08.faithful_of_beq",
+    "BeyondVerif.C08.propagate_pure",
     "BeyondVerif.C08.propagate_pure_not_sgp4",
+    "BeyondVerif.C08.propagate_pure_sgp4",
     "BeyondVerif.C08.iter_eq_map_propagate",
     "BeyondVerif.C08.ident_table_matches",
     "BeyondVerif.C08.order_matches",
@@ -53,8 +69,9 @@ THEOREMS = [
     "BeyondVerif.C08W.ephem_empty_list_yields_nothing",
     "BeyondVerif.C08W.analytical_empty_list_yields_nothing",
     "BeyondVerif.C08W.sgp4_follows_modify",
-    "BeyondVerif.C08W.sgp4_stale_after_drag_change",
-    "BeyondVerif.C08W.sgp4_drag_change_seen_after_element_change",
+    "BeyondVerif.C08W.sgp4_follows_drag_change",
+    "BeyondVerif.C08W.stale_when_not_faithful",
+    "BeyondVerif.C08W.sgp4_follows_both_changes",
     "BeyondVerif.C08W.kepler_follows_modify",
 ]
 LEVEL_TEXT = ("Lean theorems over an integer-microsecond model of Date.range, AnalyticalPropagator.iter, NumericalPropagator.iter + KeplerNum._iter, "
@@ -62,21 +79,23 @@ LEVEL_TEXT = ("Lean theorems over an integer-microsecond model of Date.range, An
               "numerical: KeplerNum; ephemeris), for all epochs, starts, stops (date or timedelta), steps of either sign (dividing the span or not; absent = "
               "integration step for KeplerNum), with or without listeners: the iterator yields exactly start + k*step, k = 0..floor(|stop-start|/|step|), in order, "
               "none beyond stop, forward (step > 0) and backward (step flipped or negative) - iter_dates_forward/backward, numerical_iter_dates_forward/backward "
-              "(any span however short, stop on or off the integration grid), ephem_iter_dates_forward/backward (start, stop inside the tabulated span), by "
+              "(any span however short, stop on or off the integration grid), ephem_iter_dates_forward/backward (start, stop inside the tabulated span; outside it: "
+              "refused when strict, ephem_iter_strict_*_refused, clamped to the span otherwise, ephem_iter_clamped_forward/backward; without step: exactly the tabulated "
+              "dates within the range for sorted points, ephem_iter_own_sorted / _backward_sorted), by "
               "induction over the loops; explicit lists are yielded as given, the empty list yields nothing (iter_dates_list, numerical_iter_dates_list, "
-              "ephem_iter_dates_list); error kinds of the argument handling; for EVERY history of propagate/iter calls and in-place modifications of the orbits on "
-              "shared propagator and listener objects the result of the next call equals that on fresh objects holding the current orbit values: at full strength "
-              "for Kepler, J2, None, KeplerNum, CW, Ephem (propagate_pure_not_sgp4), and for Sgp4 under the hypothesis that what Sgp4 compares of its orbit "
-              "(coordinates, date, form, frame) determines the orbit (propagate_pure_partial: in-place changes of the coordinates are covered since c604b3e; "
-              "an in-place change of a drag term bstar/ndot/ndotdot is NOT - kernel-decided counter-witness, open finding). Kernel-decided regression witnesses "
-              "on the inputs of the 8 repaired findings. Model tied to the code by an exact differential correspondence (dates, error kinds, binding trace, whose trajectory, events, "
+              "ephem_iter_dates_list), a DateRange object passed as dates= yields exactly the dates of the object in all three families, both directions, inclusive or "
+              "not (iter_dates_range, ephem_iter_dates_range, numerical_iter_dates_range_forward/backward, rangeRun_*); error kinds of the argument handling; for EVERY history of propagate/iter calls and in-place modifications of the orbits on "
+              "shared propagator and listener objects (their coordinates; for Sgp4 also their drag terms), every propagator kind, the result of the next call equals "
+              "that on fresh objects holding the current orbit values (propagate_pure, by an invariant over histories; propagate_pure_not_sgp4 without any hypothesis; "
+              "for Sgp4 the model's orbit value must be what Sgp4._state compares - coordinates, date, form, frame, bstar, ndot, ndotdot since 3d341d9 - "
+              "faithful_of_beq / propagate_pure_sgp4 for the world the correspondence runs). Kernel-decided regression witnesses "
+              "on the inputs of the 9 repaired findings. Model tied to the code by an exact differential correspondence (dates, error kinds, binding trace, whose trajectory, events, "
               "Listener.prev) on every run and by constants / setter kinds regenerated from the source.")
 LEVEL_NOTE = ("model hand-written (control flow), tied by exact correspondence; dates are exact integers in the model while Date carries float seconds "
               "(inputs on a 0.125 s grid where the float arithmetic is exact; date arithmetic itself is C03's); yielded STATES are abstract in the model "
               "(f(orbit value, date)) and compared on the real API by the oracle only; the numerical theorems take as a parameter any number m of integration steps "
-              "that reach stop and fill the interpolation order and assume fuel > m (fuel bounds the model's loops only; the code has no bound); 8 findings fixed in "
-              "/repo are kept as regression families; 1 clause is false of the current code (history independence under Sgp4 after orb.bstar = x: open finding "
-              "C08-sgp4-stale-after-drag-term-change, proposed_fixes/C08-h-sgp4-drag-terms.diff); "
+              "that reach stop and fill the interpolation order and assume fuel > m (fuel bounds the model's loops only; the code has no bound); 9 findings fixed in "
+              "/repo are kept as regression families and kernel-decided regression witnesses; no clause of the property is known to be false of the current code; "
               "Lean kernel + propext/Classical.choice/Quot.sound")
 TECHNIQUE = "Lean 4 proof by induction over the iteration loops and over call histories + kernel decide regression witnesses; exact model/implementation correspondence"
 TRUSTED = [
@@ -90,7 +109,8 @@ ASSUMPTIONS = [
     "KeplerNum with a fixed-step method (rk4/euler) and self.step > 0: real_step == self.step; adaptive methods change the internal grid and are not modelled; `real_steps=True` is not modelled",
     "Ephem(points) sorts by date: modelled as the reversal of the (descending) list a backward integration produces",
     "the positioning of KeplerNum at `start` (extrapolation / retropolation from the epoch padded to DEFAULT_ORDER points, one interpolation) always succeeds and only its date enters the model",
-    "Sgp4 compares (tobytes, date, form, frame) of the bound orbit with what its record was computed from: modelled as a relation World.sameState on abstract orbit values (in the correspondence: same object and same number of element changes, whatever the number of drag-term changes)",
+    "Sgp4 compares (tobytes, date, form, frame, bstar, ndot, ndotdot) of the bound orbit with what its record was computed from: modelled as a relation World.sameState on abstract orbit values (in the correspondence: equality of (object, number of element changes, number of drag-term changes))",
+    "Faithful (hypothesis of propagate_pure, needed for Sgp4 only): the other entries of an orbit (name, norad_id, cospar_id, element_nb, revolutions, tle, type, user attributes) reach only the labels of the TLE text built by Tle.from_orbit, not the trajectory the sgp4 package computes from the record - a statement about Tle.from_orbit / twoline2rv, not proved; exercised on the real API by the oracle (in-place changes of name / norad_id / revolutions / element_nb between calls, family sgp4-history-dependent-*-after-inplace-label-change)",
     "a call is atomic: a suspended generator is either dropped or never resumed after another call on the same objects",
     "in-place modifications of an orbit by the user happen between calls (modelled as the call `modify`), not while an iterator is suspended",
 ]
@@ -102,15 +122,13 @@ NOT_COVERED = [
     "inputs outside the quantifier, modelled and in the correspondence but without theorem: a forward range with a negative step (analytical: ValueError at once, iter_incoherent; Ephem and KeplerNum: dates until the span is left, then ValueError); step = 0 (analytical: ValueError; Ephem / KeplerNum forward: never terminates, both sides stop at the cap; KeplerNum backward: ValueError); KeplerNum.iter(start=None): AttributeError",
     "event search (_bisect) is C10's; listeners enter here only through clear_listeners / Listener.prev / the number of events found per call",
 ]
-OPEN = ["propagate_pure for Sgp4 is _partial: it assumes Faithful (Sgp4._state determines the orbit value). The excluded case - a drag term (bstar, ndot, ndotdot) changed in place after a first propagation - is a genuine failure of the current code (Witness sgp4_stale_after_drag_change, known finding C08-sgp4-stale-after-drag-term-change, proposed_fixes/C08-h-sgp4-drag-terms.diff); after that fix sameState becomes equality and the hypothesis disappears",
-        "ownPts / ownPtsBack (Ephem.iter without step) are proved equal to the code's loops by definition only; their characterisation as 'the tabulated dates within [start, stop]' for sorted points is proved for integration grids only (Lemmas/Iter.lean ownPts_grid, used by numerical_iter_dates_forward)",
-        "Ephem.iter with start or stop outside the tabulated span (strict: ValueError; strict=False: clamped, forward and backward): modelled and in the correspondence, no theorem",
-        "Dates given as a DateRange object (all three families; for KeplerNum also backward DateRanges): modelled and in the correspondence, no theorem"]
+OPEN = ["Ephem.iter with start and/or stop ABSENT (defaults: the ends of the tabulated span) has no theorem of its own (modelled, in the correspondence); the clamping theorems (strict=False) are stated for a stop given as a date, not as a timedelta (which the code resolves from the unclamped start)",
+        "an exclusive BACKWARD DateRange is covered by iter_dates_range / ephem_iter_dates_range / numerical_iter_dates_range_backward (the iterator yields exactly what the object yields, rangeRun) but rangeRun itself is characterised as a grid only for inclusive ranges and exclusive forward ranges"]
 RULE = ("correspondence: per propagator kind (sgp4, kepler, j2, none, num, cw, ephem) random keyword combinations of iter (start absent/None/before/at/after epoch, "
         "stop date/timedelta/absent, step absent/None/positive/negative/zero, dates list (empty, unordered, repeated) / DateRange (both directions), strict, backward "
         "ranges inside and outside an ephemeris span) and random histories of <= 8 propagate/iter calls on two "
         "orbits (every element different) sharing one propagator and two listeners that fire on a date pattern (full, partial, zero consumption; start/stop/step, explicit "
-        "dates and DateRange forms; in-place modifications of the orbits between calls: their elements, for Sgp4 also their drag term B*), the trace compared being dates, end kind, bound orbit, number of re-bindings, "
+        "dates and DateRange forms; in-place modifications of the orbits between calls: their elements, for Sgp4 also their drag term B* and - oracle only - their name / catalogue number / counters), the trace compared being dates, end kind, bound orbit, number of re-bindings, "
         "number of events, Listener.prev and WHOSE trajectory (orbit object, number of modifications seen) the returned state lies on; non-trivial = >= 2 dates yielded "
         "resp. >= 2 calls; distinct = distinct request line. "
         "oracle: the contract list start + k*step on the real API for all 7 kinds both directions, yielded state == direct propagate from fresh objects, "
@@ -234,7 +252,15 @@ class World:
         """the user changes elements of an orbit object in place (size and phase of the orbit); meta: the drag term B*
         (an attribute of the orbit next to its six coordinates; only Sgp4 uses it)"""
         o = self.orbits[idx]
-        if meta:
+        if meta == "ids":
+            # attributes of the orbit that reach only the labels of the TLE text Sgp4 builds its record from (oracle only)
+            if self.kind != "sgp4":
+                raise ValueError("labels are modified for Sgp4 orbits only in this harness")
+            o.name = (o.name or "") + "X"
+            o.norad_id = (int(o.norad_id) + 1) % 100000
+            o.revolutions = (int(o.revolutions) + 1) % 100000
+            o.element_nb = (int(o.element_nb) + 1) % 1000
+        elif meta:
             if self.kind != "sgp4":
                 raise ValueError("drag terms are modified for Sgp4 orbits only in this harness")
             o.bstar = o.bstar * 1.5 + 2e-5
@@ -537,7 +563,7 @@ def real_trace(kind, h, npts, calls):
         first = None
         w.n_events = 0
         if c["op"] == "modify":
-            w.modify(c["orb"], meta=bool(c.get("meta")))
+            w.modify(c["orb"], meta=c.get("meta", False))
             vers[c["orb"]].append(w.orbits[c["orb"]].copy())
             run = " done"
         elif c["op"] == "propagate":
@@ -737,13 +763,13 @@ def check_iter(out, w, a, order, npts, states=True):
                 return
 
 
-def gen_call(rng, kind, h, npts, n_orb, modify=True):
+def gen_call(rng, kind, h, npts, n_orb, modify=True, ids=False):
     idx = rng.randrange(n_orb)
     ls = rng.choice([[], [], [0], [1], [0, 1]])
     r0 = rng.random()
     if modify and kind != "ephem" and r0 < 0.12:
         if kind == "sgp4" and rng.random() < 0.4:
-            return {"op": "modify", "orb": idx, "meta": True}
+            return {"op": "modify", "orb": idx, "meta": "ids" if ids and rng.random() < 0.3 else True}
         return {"op": "modify", "orb": idx}
     if r0 < 0.30:
         # explicit list of dates spread over an orbit (numerical propagator: a few integration steps around the epoch; also as a
@@ -783,7 +809,7 @@ def gen_call(rng, kind, h, npts, n_orb, modify=True):
 def do_call(w, c):
     """-> canonical observable result of one call"""
     if c["op"] == "modify":
-        w.modify(c["orb"], meta=bool(c.get("meta")))
+        w.modify(c["orb"], meta=c.get("meta", False))
         return ("modified",)
     if c["op"] == "propagate":
         try:
@@ -820,7 +846,7 @@ def check_history(out, kind, h, npts, calls):
     f = World(kind, h=h, npts=npts)
     for c in calls[:-1]:
         if c["op"] == "modify":
-            f.modify(c["orb"], meta=bool(c.get("meta")))
+            f.modify(c["orb"], meta=c.get("meta", False))
     ref = do_call(f, last)
     out.count(key=(kind, repr(calls)), nontrivial=len(calls) > 1, kind="history-" + kind, calls=len(calls), last=last["op"])
     if res != ref:
@@ -837,11 +863,13 @@ def check_history(out, kind, h, npts, calls):
         # call to call)
         mods = [c for c in calls[first_yield.get(last["orb"], len(calls)) + 1:-1] if c["op"] == "modify" and c["orb"] == last["orb"]]
         changed = bool(mods) and not mods[-1].get("meta")
-        drag = bool(mods) and bool(mods[-1].get("meta"))
-        if (changed or drag) and what == "events":
+        label = bool(mods) and mods[-1].get("meta") == "ids"
+        drag = bool(mods) and bool(mods[-1].get("meta")) and not label
+        if (changed or drag or label) and what == "events":
             what = "state"          # another trajectory has other events: one family with the states themselves
         fam = (f"{kind}-history-dependent-{what}-after-inplace-change" if changed else
                f"{kind}-history-dependent-{what}-after-inplace-drag-term-change" if drag else
+               f"{kind}-history-dependent-{what}-after-inplace-label-change" if label else
                f"{kind}-history-dependent-{last['op']}-{what}")
         out.fail(fam,
                  "the result of a call depends on earlier calls on the same objects",
@@ -870,7 +898,7 @@ def check_dates_list(out, w, dates, npts, order):
                  {"check": "dates", "kind": w.kind, "h": w.h, "npts": npts, "dates": dates}, observed={"dates": got[:40], "end": fin}, expected={"dates": dates[:40], "end": "done"})
 
 
-def directed_histories(kind, h, npts):
+def directed_histories(kind, h, npts, ids=False):
     """the histories of the findings this property has had (known_findings.d/C08.json), on every kind, run first on every seed"""
     P = lambda o, d: {"op": "propagate", "orb": o, "date": d}                                    # noqa: E731
     inside = (npts - 1) * h
@@ -886,6 +914,10 @@ def directed_histories(kind, h, npts):
     if kind == "sgp4":
         out.append([P(0, d1), {"op": "modify", "orb": 0, "meta": True}, P(0, 30 * d1)])
         out.append([P(0, d1), {"op": "modify", "orb": 0, "meta": True}, {"op": "iter", "orb": 0, "args": dict(rng_args, stop=40 * h), "consume": CAP}])
+    if kind == "sgp4" and ids:
+        # name / catalogue number / revolution and element counters reach the TLE text but not the trajectory (oracle only)
+        out.append([P(0, d1), {"op": "modify", "orb": 0, "meta": "ids"}, P(0, 30 * d1)])
+        out.append([P(0, d1), {"op": "modify", "orb": 0, "meta": True}, {"op": "modify", "orb": 0, "meta": "ids"}, P(0, 30 * d1)])
     # the same listener objects over two successive iterations on explicit dates, a quarter / half / three quarters of a LEO
     # revolution apart (the watched quantities have changed sign for at least one of them)
     for q in ((3, 6, 9) if kind == "ephem" else (24, 48, 72)):
@@ -904,7 +936,7 @@ def oracle(ctx, widened):
     order = order_of_source()
     n_iter = 1200 if big else 120
     for kind in KINDS:
-        for calls in directed_histories(kind, 60 * 8 * U, 12):
+        for calls in directed_histories(kind, 60 * 8 * U, 12, ids=True):
             check_history(out, kind, 60 * 8 * U, 12, calls)
     for kind in KINDS:
         for i in range(n_iter):
@@ -939,7 +971,7 @@ def oracle(ctx, widened):
             h = 60 * 8 * U
             npts = rng.choice([9, 12])
             n_orb = 1 if kind == "ephem" else 2
-            calls = [gen_call(rng, kind, h, npts, n_orb) for _ in range(rng.randint(1, 8))]
+            calls = [gen_call(rng, kind, h, npts, n_orb, ids=True) for _ in range(rng.randint(1, 8))]
             check_history(out, kind, h, npts, calls)
     out.sample({"check": "iter", "kind": "kepler", "args": {"start": -3 * 8 * U, "stop": 100 * 8 * U, "step": 30 * 8 * U},
                 "expected": expected_dates(-3 * 8 * U, 100 * 8 * U, 30 * 8 * U)})
